@@ -7,6 +7,7 @@ CONSTANTS
   Vals = {"o1"}
   Depth = 3
   MaxObjs = 2
+  Parents = {"none"}
   Variant = "impl"
 INVARIANT ExactlyOnce
 INVARIANT RightList
